@@ -26,11 +26,11 @@ Expected(r) ==
          LET j == IndexL0(r.len, r.step) IN [ok |-> IF j = NOIDX THEN JNull ELSE JInt(j)]
     [] r.kind \in {"other", "otheridx"} -> [ok |-> JNull]
 
-Matches(exp, out) ==
+SliceMatches(exp, out) ==
   IF "ok" \in DOMAIN exp THEN IsOk(out) /\ out.ok = exp.ok
   ELSE IsErr(out) /\ out.err.class = "runtime" /\ out.err.kind = exp.err
 
-Allowed(r) == Matches(Expected(r), r.out)
+Allowed(r) == SliceMatches(Expected(r), r.out)
 
 (* Level 1 + one deviation: what the code as modelled would do *)
 L1Outcome(r, devs) ==
